@@ -18,6 +18,10 @@ pub assume_specification<T, A> [VecDeque::<T, A>::shrink_to_fit] (v: &mut VecDeq
     where A: std::alloc::Allocator,
     ensures final(v)@ == old(v)@;
 
+pub assume_specification<T, A> [Vec::<T, A>::shrink_to_fit] (v: &mut Vec<T, A>)
+    where A: std::alloc::Allocator,
+    ensures final(v)@ == old(v)@;
+
 // R2b: unreachable_unchecked() becomes a call that must be proved unreachable.
 #[verifier::external_body]
 pub fn vx_unreachable() -> !
@@ -27,9 +31,12 @@ pub fn vx_unreachable() -> !
 }
 '''
 
-PRELUDE_REGISTRY = r'''
+REGISTRY_TRAIT = r'''
 pub trait Registry {}
+'''
 
+# opens `pub mod archetype`; the unit closes it with "}" after adding its own items
+ARCHETYPE_MOD_OPEN = r'''
 pub mod archetype {
     use super::*;
     // R7: archetype::IdentifierRef<R> is an opaque, copyable token (a pointer into the buffer
@@ -42,8 +49,9 @@ pub mod archetype {
         fn clone(&self) -> (r: Self) ensures r == *self { unimplemented!() }
     }
     impl<R: Registry> Copy for IdentifierRef<R> {}
-}
 '''
+
+PRELUDE_REGISTRY = REGISTRY_TRAIT + ARCHETYPE_MOD_OPEN + "}\n"
 
 PRELUDE_HASHMAP = r'''
 // R7: hashbrown::HashMap is an opaque type whose abstract value is a (possibly infinite-domain)
